@@ -48,7 +48,7 @@ def run_case(spec):
     except ValueError as ex:
         return {'status': 'vacuous', 'outcome': 'reference n/a', 'ops': ops, 'detail': str(ex)}
     val = r['value']
-    tol = 2e-6 * (1 + abs(val)) * 5
+    tol = (1e-5 if spec.get('solver', 'def') == 'def' else 1e-4) * (1 + abs(val))
     o = ev['obj']
     if o['status'] != 'optimal':
         return {'status': 'vacuous', 'outcome': 'ambiguity set ' + o['status'], 'ops': ops}
